@@ -14,7 +14,7 @@ import vlib
 sys.path.insert(0, os.path.join(vlib.ROOT, "harness", "impl"))
 sys.path.insert(0, os.path.join(vlib.ROOT, "translators"))
 import wamp_messages as W  # noqa: E402
-from props.c08 import regenerate_shape, report_broken_obligations, IMPORTS, DEFS  # noqa: E402
+from props.c08 import regenerate_shape, report_broken_obligations, run_impl_chunks, IMPORTS, DEFS  # noqa: E402
 
 VIA = ["json", "msgpack", "cbor"]
 IDS = [0, 1, W.ID_MAX]
@@ -227,8 +227,7 @@ def run(ck):
             cases.insert(0, {"cls": c["cls"], "attrs": {k: W.dec(v) for k, v in c["attrs"]}, "tag": "corpus:" + fn})
 
     def run_cases(cs):
-        payload = {"op": "roundtrip", "cases": [{"cls": c["cls"], "attrs": [[k, W.enc(v)] for k, v in c["attrs"].items()], "via": VIA} for c in cs]}
-        return ck.run_impl("wamp_messages.py", payload, timeout=3000)
+        return run_impl_chunks(ck, "roundtrip", [{"cls": c["cls"], "attrs": [[k, W.enc(v)] for k, v in c["attrs"].items()], "via": VIA} for c in cs])
     r = run_cases(cases)
     if not r["installed"]["ubjson"]:
         ck.notes.append("UBJSON not installed (bjdata import broken in this sandbox): serializer skipped")
